@@ -114,6 +114,7 @@ func (x *Exec) doCall(fr *Frame, st *State, c *ssa.CallCommon, args []Value, pos
 		}
 	}
 	// ---- effect of the call ----
+	callee := c.StaticCallee()
 	spec := x.DB.lookup(keys...)
 	var res Value
 	pre := st
@@ -123,7 +124,13 @@ func (x *Exec) doCall(fr *Frame, st *State, c *ssa.CallCommon, args []Value, pos
 		preSnap = st.clone()
 	}
 	_ = pre
-	callee := c.StaticCallee()
+	if spec != nil && spec.Kind == "inline" {
+		spec = nil // contract says: use the callee's body
+		if callee != nil && x.canInline(fr, callee) {
+			res = x.inline(fr, st, callee, args, nil, pos)
+			goto done
+		}
+	}
 	switch {
 	case spec != nil:
 		res = x.applySpec(fr, st, spec, c, args, rt, pos, preSnap, key)
@@ -146,6 +153,7 @@ func (x *Exec) doCall(fr *Frame, st *State, c *ssa.CallCommon, args []Value, pos
 			res = x.havocCall(fr, st, key, args, rt, pos)
 		}
 	}
+done:
 	if res == nil && rt != nil {
 		if tt, ok := rt.(*types.Tuple); !ok || tt.Len() > 0 {
 			res = m.freshValue(rt, "res")
@@ -316,6 +324,25 @@ func inModule(fn *ssa.Function) bool {
 	return p == "github.com/crossplane/crossplane" || strings.HasPrefix(p, "github.com/crossplane/crossplane/")
 }
 
+// inlineInit runs a package's synthetic init function (its global initialisers) on st.
+func (x *Exec) inlineInit(fr *Frame, st *State, fn *ssa.Function) {
+	cf := x.newFrame(fn, fr)
+	if g := fn.Pkg.Var("init$guard"); g != nil {
+		if p, ok := x.val(cf, st, g).(PtrV); ok {
+			x.store(st, p, Scalar{T: "false", Sort: SBool, Typ: types.Typ[types.Bool]})
+		}
+	}
+	x.runBody(cf, st)
+	if len(cf.rets) > 0 {
+		var sts []*State
+		for _, r := range cf.rets {
+			sts = append(sts, r.st)
+		}
+		*st = *x.mergeStates(sts)
+		st.pc = "true"
+	}
+}
+
 func inlinablePkg(path string) bool {
 	return path == "github.com/crossplane/crossplane" || strings.HasPrefix(path, "github.com/crossplane/crossplane/") ||
 		strings.HasPrefix(path, "github.com/crossplane/crossplane-runtime/") || path == "k8s.io/utils/ptr"
@@ -371,8 +398,13 @@ func (x *Exec) inline(fr *Frame, st *State, fn *ssa.Function, args []Value, env 
 }
 
 func (x *Exec) havocCall(fr *Frame, st *State, key string, args []Value, rt types.Type, pos token.Pos) Value {
-	x.note("call without contract, havoc: " + key + " at " + x.pos(pos))
-	x.havocAll(st, key)
+	x.frameRef(fr, st, "", "call without contract ("+key+")", pos)
+	if x.inInit {
+		x.note("call inside a package initialiser treated as effect-free")
+	} else {
+		x.note("call without contract, havoc: " + key + " at " + x.pos(pos))
+		x.havocAll(st, key)
+	}
 	if rt == nil {
 		return nil
 	}
@@ -403,6 +435,7 @@ func (x *Exec) accessorConvention(fr *Frame, st *State, c *ssa.CallCommon, key s
 		return x.mfRead(st, mfName(name), ref, nil, rt), true
 	case len(args) == 2 && strings.HasPrefix(name, "Set"):
 		x.assumed["accessor convention: "+name+"(v) writes model field "+mfName(name)]++
+		x.frameRef(fr, st, ref, "model-field write by "+name, token.NoPos)
 		x.mfWrite(st, mfName(name), ref, nil, args[1])
 		return nil, true
 	}
@@ -608,7 +641,39 @@ func (x *Exec) applySpec(fr *Frame, st *State, spec *FuncSpec, c *ssa.CallCommon
 			}
 		}
 	case "":
-		if !spec.Assumed && len(spec.Modifies) == 0 {
+		if !spec.Assumed && spec.Frame == "fresh-only" {
+			// verified frame: nothing the caller can see is written
+		} else if !spec.Assumed && strings.HasPrefix(spec.Frame, "writes ") {
+			// verified frame: only the listed parameters' objects are written
+			sig := c.Signature()
+			off := 0
+			if c.IsInvoke() || sig.Recv() != nil {
+				off = 1
+			}
+			for _, pn := range strings.Fields(strings.TrimPrefix(spec.Frame, "writes ")) {
+				for i := 0; i < sig.Params().Len(); i++ {
+					if sig.Params().At(i).Name() != pn || i+off >= len(args) {
+						continue
+					}
+					switch a := args[i+off].(type) {
+					case MapV:
+						x.frameRef(fr, st, a.Ref, "map rewritten by "+key, pos)
+						x.havocMap(st, a)
+					case PtrV:
+						if r, ok := objRef(a); ok {
+							x.frameRef(fr, st, r, "object rewritten by "+key, pos)
+							x.havocObject(st, r, a.Elem)
+						}
+					case IfaceV:
+						if r, ok := objRef(a); ok {
+							x.frameRef(fr, st, r, "object rewritten by "+key, pos)
+							x.havocObject(st, r, nil)
+						}
+					}
+				}
+			}
+		} else if !spec.Assumed && len(spec.Modifies) == 0 {
+			x.frameRef(fr, st, "", "call to "+key+" (no frame)", pos)
 			x.havocAll(st, key)
 		} else if len(spec.Ensures) == 0 && len(spec.Effects) == 0 && len(spec.Havoc) == 0 && len(spec.SetMF) == 0 {
 			x.havocAll(st, key)
@@ -616,9 +681,18 @@ func (x *Exec) applySpec(fr *Frame, st *State, spec *FuncSpec, c *ssa.CallCommon
 	case "havoc":
 		x.havocAll(st, key)
 	}
+	if len(spec.Effects) > 0 {
+		x.frameRef(fr, st, "", "effectful call ("+key+")", pos)
+	}
+	if (len(spec.HavocMF) > 0 || len(spec.SetMF) > 0) && len(args) > 0 {
+		if ref, ok := objRef(args[0]); ok {
+			x.frameRef(fr, st, ref, "model-field write by "+key, pos)
+		}
+	}
 	for _, h := range spec.Havoc {
 		if h < len(args) {
 			if ref, ok := objRef(args[h]); ok {
+				x.frameRef(fr, st, ref, "object rewritten by "+key, pos)
 				var elem types.Type
 				switch a := args[h].(type) {
 				case PtrV:
@@ -763,6 +837,7 @@ func (x *Exec) builtin(fr *Frame, st *State, b *ssa.Builtin, c *ssa.CallCommon, 
 		return args[0]
 	case "delete":
 		if mv, ok := args[0].(MapV); ok {
+			x.frameRef(fr, st, mv.Ref, "map delete", pos)
 			x.mapDelete(st, mv, args[1])
 			return nil
 		}
